@@ -1,8 +1,436 @@
-//! C07 - not built yet
+//! C07 - session flow control: never overrun the peer's incoming window; nothing lost; reported state
+//! reflects the frames actually sent and received.
+//!
+//! History search: real client Session + Sender (+ Receiver) against the scripted peer which produces
+//! every history of session flows / incoming transfers interleaved with outgoing single- and
+//! multi-frame transfers, for initial next-outgoing-ids 0 and next to 2^32.
+use crate::scen::{self, SendCmd};
+use fe2o3_amqp::link::{Receiver, Sender};
+use fe2o3_amqp::Session;
+use fe2o3_amqp_types::definitions::{Handle, SenderSettleMode};
+use fe2o3_amqp_types::messaging::message::__private::Serializable;
+use fe2o3_amqp_types::messaging::Message;
+use fe2o3_amqp_types::performatives::*;
+use serde_json::json;
+use std::sync::Arc;
+use std::time::{Duration, Instant};
+use vlib::history::{search, HistOut};
+use vlib::peer::{drive, settle, trace_to_strings, Auto, Body, Dirn, WFrame};
 use vlib::report::{Ctx, Outcome};
+use vlib::runner::{run_exec, RunCfg, Scenario};
+use vlib::util::h64;
 
-pub fn run(_ctx: &Ctx) -> Outcome {
+#[derive(Debug, Clone, Copy, PartialEq, Eq, Hash)]
+pub enum Ev {
+    /// application sends a 1-frame message
+    S1,
+    /// application sends a message the transport has to split into 3 frames
+    S3,
+    /// peer flow: next-incoming-id = what it has received, incoming-window = n
+    F0,
+    F1,
+    F2,
+    F5,
+    /// next-incoming-id unset, incoming-window 2
+    FUnset2,
+    /// stale next-incoming-id (one behind), incoming-window 2
+    FStale2,
+    /// stale next-incoming-id (one behind) and incoming-window 0: the peer closed its window before it saw our last frame
+    FStale0,
+    /// peer sends a transfer on the link where the library is the receiver
+    T,
+    /// peer asks for the session state (flow with echo)
+    E,
+}
+pub const ALPHABET: [Ev; 11] = [Ev::S1, Ev::F1, Ev::F2, Ev::S3, Ev::F0, Ev::E, Ev::T, Ev::F5, Ev::FStale2, Ev::FStale0, Ev::FUnset2];
+
+#[derive(Debug, Clone, Default)]
+pub struct Obs {
+    pub executed: usize,
+    pub fails: Vec<(String, String)>,
+    pub state_keys: Vec<u64>,
+    pub trace: Vec<String>,
+    pub machinery: Option<String>,
+    pub held_back_steps: usize,
+    pub multi_frame: usize,
+}
+
+fn sdiff(a: u32, b: u32) -> i64 {
+    (a.wrapping_sub(b) as i32) as i64
+}
+
+fn lib_transfer_frames(trace: &[WFrame], handle: u32) -> Vec<&WFrame> {
+    trace
+        .iter()
+        .filter(|w| w.dir == Dirn::FromLib && matches!(&w.body, Body::Perf(Performative::Transfer(t)) if t.handle.0 == handle))
+        .collect()
+}
+
+pub async fn scenario(x: u32, events: Vec<Ev>) -> Obs {
+    let mut obs = Obs::default();
+    let mut auto = Auto::default();
+    auto.max_frame_size = 512;
+    auto.incoming_window = 2;
+    auto.outgoing_window = 1000;
+    auto.grant_credit = Some(100_000);
+    let peer_noi0 = 7u32;
+    auto.next_outgoing_id = peer_noi0;
+    let w0 = auto.incoming_window;
+    let mut c = match scen::open_client(auto, 512).await {
+        Ok(c) => c,
+        Err(e) => {
+            obs.machinery = Some(e);
+            return obs;
+        }
+    };
+    let mut session = match scen::begin(&mut c, Session::builder().next_outgoing_id(x).incoming_window(4).outgoing_window(1000)).await {
+        Ok(s) => s,
+        Err(e) => {
+            obs.machinery = Some(e);
+            return obs;
+        }
+    };
+    let sender = drive(
+        &mut c.peer,
+        Sender::builder().name("s1").target("q").sender_settle_mode(SenderSettleMode::Settled).attach(&mut session),
+        scen::H,
+    )
+    .await;
+    let sender = match sender {
+        Some(Ok(s)) => s,
+        other => {
+            obs.machinery = Some(format!("sender attach failed: {:?}", other.map(|r| r.map(|_| ()).map_err(|e| e.to_string()))));
+            return obs;
+        }
+    };
+    let snd_handle = c.peer.links.last().map(|l| l.lib_handle).unwrap_or(0);
+    let receiver = drive(
+        &mut c.peer,
+        Receiver::builder().name("r1").source("q").credit_mode(fe2o3_amqp::link::receiver::CreditMode::Auto(2)).attach(&mut session),
+        scen::H,
+    )
+    .await;
+    let mut receiver = match receiver {
+        Some(Ok(r)) => r,
+        other => {
+            obs.machinery = Some(format!("receiver attach failed: {:?}", other.map(|r| r.map(|_| ()).map_err(|e| e.to_string()))));
+            return obs;
+        }
+    };
+    let rcv_our_handle = c.peer.links.last().map(|l| l.our_handle).unwrap_or(1);
+    // drain incoming deliveries in the background so that the receiver keeps working
+    let _rtask = tokio::spawn(async move {
+        while let Ok(d) = receiver.recv::<serde_amqp::Value>().await {
+            let _ = receiver.accept(&d).await;
+        }
+    });
+    let (tx, _log, _task) = scen::spawn_sender_task(sender);
+    settle(&mut c.peer, 2).await;
+    // the library's begin must announce next-outgoing-id = x
+    let lib_begin_noi = c.peer.trace.iter().find_map(|w| match (&w.body, w.dir) {
+        (Body::Perf(Performative::Begin(b)), Dirn::FromLib) => Some(b.next_outgoing_id),
+        _ => None,
+    });
+    if lib_begin_noi != Some(x) {
+        obs.fails.push(("begin-next-outgoing-id".into(), format!("begin announces next-outgoing-id {:?}, configured {x}", lib_begin_noi)));
+    }
+    // peer-side truth
+    let mut limit: u32 = x.wrapping_add(w0); // begin: next-incoming-id is implicitly the library's next-outgoing-id
+    let mut peer_sent_transfers: u32 = 0;
+    let mut queued: Vec<usize> = vec![]; // body lengths of messages queued so far
+    let mut multi_before = false; // a transport-split (multi-frame) message has been written
+    obs.state_keys.push(h64(&(0u8, w0)));
+    let n_ev = events.len();
+    for i in 0..=n_ev {
+        // the step after the last event reopens the window wide so that everything held back must come out
+        let ev = if i < n_ev { Some(events[i]) } else { None };
+        let frames_before = lib_transfer_frames(&c.peer.trace, snd_handle).len() as u32;
+        let peer_nii = x.wrapping_add(frames_before); // transfer frames the peer has received so far
+        if let Some(Ev::FStale2) | Some(Ev::FStale0) = ev {
+            if frames_before == 0 {
+                break;
+            }
+        }
+        if let Some(Ev::T) = ev {
+            if peer_sent_transfers >= 40 {
+                break;
+            }
+        }
+        let mark = c.peer.trace.len();
+        let mut this_flow_limit: Option<u32> = None;
+        match ev {
+            Some(Ev::S1) => {
+                let _ = tx.send(SendCmd::Send { body_len: 20 });
+                queued.push(20);
+            }
+            Some(Ev::S3) => {
+                let _ = tx.send(SendCmd::Send { body_len: 1100 });
+                queued.push(1100);
+            }
+            Some(Ev::T) => {
+                let t = Transfer {
+                    handle: Handle(rcv_our_handle),
+                    delivery_id: Some(peer_sent_transfers),
+                    delivery_tag: Some(serde_bytes::ByteBuf::from(peer_sent_transfers.to_be_bytes().to_vec())),
+                    message_format: Some(0),
+                    settled: Some(true),
+                    more: false,
+                    rcv_settle_mode: None,
+                    state: None,
+                    resume: false,
+                    aborted: false,
+                    batchable: false,
+                };
+                let payload = serde_amqp::to_vec(&Serializable(Message::builder().value(peer_sent_transfers).build())).unwrap();
+                c.peer.send_perf(0, Performative::Transfer(t), &payload);
+                peer_sent_transfers += 1;
+            }
+            other => {
+                let (nii, iw, echo) = match other {
+                    Some(Ev::F0) => (Some(peer_nii), 0, false),
+                    Some(Ev::F1) => (Some(peer_nii), 1, false),
+                    Some(Ev::F2) => (Some(peer_nii), 2, false),
+                    Some(Ev::F5) => (Some(peer_nii), 5, false),
+                    Some(Ev::FUnset2) => (None, 2, false),
+                    Some(Ev::FStale2) => (Some(peer_nii.wrapping_sub(1)), 2, false),
+                    Some(Ev::FStale0) => (Some(peer_nii.wrapping_sub(1)), 0, false),
+                    Some(Ev::E) => (Some(peer_nii), sdiff(limit, peer_nii).max(0) as u32, true),
+                    None => (Some(peer_nii), 10_000, false),
+                    _ => unreachable!(),
+                };
+                let f = Flow {
+                    next_incoming_id: nii,
+                    incoming_window: iw,
+                    next_outgoing_id: peer_noi0.wrapping_add(peer_sent_transfers),
+                    outgoing_window: 1000,
+                    handle: None,
+                    delivery_count: None,
+                    link_credit: None,
+                    available: None,
+                    drain: false,
+                    echo,
+                    properties: None,
+                };
+                c.peer.send(0, Performative::Flow(f));
+                // next-incoming-id unset: the window is counted from the initial next-outgoing-id of the begin
+                limit = nii.unwrap_or(x).wrapping_add(iw);
+                this_flow_limit = Some(limit);
+            }
+        }
+        settle(&mut c.peer, 3).await;
+        if i < n_ev {
+            obs.executed = i + 1;
+        }
+        // ---------------- judge this step
+        let frames = lib_transfer_frames(&c.peer.trace, snd_handle);
+        let frames_after = frames.len() as u32;
+        if frames.iter().any(|w| matches!(w.perf(), Some(Performative::Transfer(t)) if t.more)) {
+            multi_before = true;
+        }
+        // (1) every transfer frame written in this step lies inside the window of the last flow / begin
+        for k in frames_before..frames_after {
+            let id = x.wrapping_add(k);
+            if sdiff(limit, id) <= 0 {
+                let cause = if frames[k as usize].perf().map(|p| matches!(p, Performative::Transfer(t) if t.delivery_id.is_none())).unwrap_or(false)
+                    || matches!(frames[k as usize].perf(), Some(Performative::Transfer(t)) if t.more)
+                {
+                    " (frame of a transport-split delivery)"
+                } else if multi_before {
+                    " (after a transport-split delivery)"
+                } else {
+                    ""
+                };
+                obs.fails.push((
+                    format!("window-overrun{cause}"),
+                    format!(
+                        "transfer frame #{k} (transfer-id {id}) was sent although the peer's window ends at {limit} (next-incoming-id + incoming-window of its last {})",
+                        if this_flow_limit.is_some() { "flow" } else { "flow/begin" }
+                    ),
+                ));
+            }
+        }
+        if multi_before {
+            obs.multi_frame += 1;
+        }
+        // (2) nothing dropped, duplicated or reordered: the deliveries on the wire are the queued messages, in order
+        let mut bodies: Vec<Vec<u8>> = vec![];
+        let mut cur: Option<Vec<u8>> = None;
+        for w in &frames {
+            if let Some(Performative::Transfer(t)) = w.perf() {
+                let mut b = cur.take().unwrap_or_default();
+                b.extend_from_slice(&w.payload);
+                if t.more {
+                    cur = Some(b);
+                } else {
+                    bodies.push(b);
+                }
+            }
+        }
+        for (k, b) in bodies.iter().enumerate() {
+            let want_len = queued.get(k).copied();
+            // payload = described data section: find the sequence number in the first 4 body bytes
+            let seq_ok = want_len
+                .map(|l| {
+                    let body = scen::body(k, l);
+                    b.windows(body.len()).any(|w| w == &body[..])
+                })
+                .unwrap_or(false);
+            if !seq_ok {
+                obs.fails.push((
+                    "delivery-stream-corrupted".into(),
+                    format!("delivery #{k} on the wire ({} payload bytes) is not message #{k} the application sent ({:?} body bytes): dropped, duplicated or reordered", b.len(), want_len),
+                ));
+                break;
+            }
+        }
+        let pending = queued.len() - bodies.len().min(queued.len());
+        if pending > 0 {
+            obs.held_back_steps += 1;
+        }
+        if i == n_ev && (pending > 0 || cur.is_some()) {
+            obs.fails.push((
+                format!("held-back-transfer-never-sent{}", if multi_before { " (after a transport-split delivery)" } else { "" }),
+                format!("the peer reopened its window to 10000 but {pending} queued message(s) were not transmitted"),
+            ));
+        }
+        // (3) the state the library reports: next-outgoing-id = initial + frames sent, next-incoming-id = peer's + frames received
+        let mut sent_so_far = 0u32;
+        for w in &c.peer.trace {
+            if w.dir != Dirn::FromLib {
+                continue;
+            }
+            match &w.body {
+                Body::Perf(Performative::Transfer(t)) if t.handle.0 == snd_handle => sent_so_far += 1,
+                Body::Perf(Performative::Flow(f)) if w.seq >= mark => {
+                    let want = x.wrapping_add(sent_so_far);
+                    if f.next_outgoing_id != want {
+                        obs.fails.push((
+                            format!("reported-next-outgoing-id{}", if multi_before { " (after a transport-split delivery)" } else { "" }),
+                            format!("a flow reports next-outgoing-id {} after {sent_so_far} transfer frames from initial {x} (expected {want})", f.next_outgoing_id),
+                        ));
+                    }
+                    let want_in = peer_noi0.wrapping_add(peer_sent_transfers);
+                    if let Some(n) = f.next_incoming_id {
+                        if n != want_in {
+                            obs.fails.push((
+                                "reported-next-incoming-id".into(),
+                                format!("a flow reports next-incoming-id {n}; the peer started at {peer_noi0} and has sent {peer_sent_transfers} transfer frames (expected {want_in})"),
+                            ));
+                        }
+                    }
+                }
+                _ => {}
+            }
+        }
+        if i < n_ev {
+            obs.state_keys.push(h64(&(frames_after, sdiff(limit, x.wrapping_add(frames_after)), pending, peer_sent_transfers)));
+        }
+    }
+    let _ = tx.send(SendCmd::Stop);
+    obs.fails.sort();
+    obs.fails.dedup();
+    obs.trace = trace_to_strings(&c.peer.trace);
+    obs
+}
+
+fn run_history(x: u32, evs: Vec<Ev>) -> (HistOut, usize, usize) {
+    let scen: Scenario<Obs> = {
+        let evs = evs.clone();
+        Arc::new(move || {
+            let evs = evs.clone();
+            Box::pin(scenario(x, evs))
+        })
+    };
+    let ex = run_exec(vec![], &RunCfg::none(), &scen);
+    let mut out = HistOut::default();
+    let (mut held, mut multi) = (0, 0);
+    match ex.out {
+        Some(o) => {
+            out.executed = o.executed;
+            out.fails = o.fails.into_iter().map(|(s, d)| (s, format!("initial next-outgoing-id {x}: {d}"))).collect();
+            out.state_keys = o.state_keys;
+            out.trace = o.trace;
+            out.machinery = o.machinery;
+            held = o.held_back_steps;
+            multi = o.multi_frame;
+        }
+        None => {
+            out.executed = evs.len();
+            out.machinery = Some(format!("scenario died: panics {:?} watchdog {}", ex.panics, ex.watchdog));
+        }
+    }
+    if ex.spun {
+        out.machinery = Some("busy loop (spin) detected".into());
+    }
+    (out, held, multi)
+}
+
+pub fn run(ctx: &Ctx) -> Outcome {
     let mut out = Outcome::new("model_checking");
-    out.machinery_errors.push("check C07 is not built yet".into());
+    if let Some(p) = &ctx.replay {
+        return replay(p, out);
+    }
+    let depth = if ctx.quick() { 4 } else { 6 };
+    let deadline = Instant::now() + Duration::from_secs_f64(ctx.budget_s);
+    let xs: Vec<u32> = if ctx.quick() { vec![0, u32::MAX - 1] } else { vec![0, u32::MAX - 2, u32::MAX - 1, u32::MAX] };
+    let (mut states, mut transitions, mut executions) = (0, 0, 0);
+    let mut truncated = false;
+    let mut samples = vec![];
+    let held = std::sync::atomic::AtomicUsize::new(0);
+    let multi = std::sync::atomic::AtomicUsize::new(0);
+    for x in xs.iter().copied() {
+        let st = search(ALPHABET.len(), depth, ctx.threads, deadline, |h| {
+            let (o, hb, m) = run_history(x, h.iter().map(|i| ALPHABET[*i]).collect());
+            held.fetch_add(hb, std::sync::atomic::Ordering::Relaxed);
+            multi.fetch_add(m, std::sync::atomic::Ordering::Relaxed);
+            o
+        });
+        executions += st.executions;
+        states += st.distinct_states;
+        transitions += st.distinct_transitions;
+        truncated |= st.truncated;
+        for m in st.machinery {
+            out.machinery_errors.push(m);
+        }
+        for (h, sig, detail, trace) in st.violations {
+            let evs: Vec<String> = h.iter().map(|i| format!("{:?}", ALPHABET[*i])).collect();
+            out.violation(sig, format!("history {:?}: {detail}", evs), json!({"x": x, "events": h, "event_names": evs, "trace": trace}));
+        }
+        if samples.len() < 2 {
+            samples.extend(st.sample_traces.into_iter().take(1));
+        }
+    }
+    out.set("states", states.max(1));
+    out.set("transitions", transitions.max(1));
+    out.set("traces_validated_against_impl", executions);
+    out.set("steps_with_transfers_held_back", held.load(std::sync::atomic::Ordering::Relaxed) as u64);
+    out.set("steps_with_multi_frame_deliveries", multi.load(std::sync::atomic::Ordering::Relaxed) as u64);
+    out.set("samples", json!(samples));
+    out.set("exhaustive", !truncated);
+    out.set("bound", format!("histories of depth {depth} over {} events x initial next-outgoing-ids {:?}; peer's initial incoming-window 2; every history ends with the window reopened to 10000", ALPHABET.len(), xs));
+    out.set("rule", "states = distinct (transfer frames sent, window left, messages waiting, transfers received) at quiescence; every state reached by executing the real session, link and connection engines against the scripted peer");
+    out.assume("the scripted peer acts at quiescent points; a frame is judged against the last flow (or the begin) the peer sent before the step in which the frame was written");
+    out
+}
+
+fn replay(p: &std::path::Path, mut out: Outcome) -> Outcome {
+    let s = std::fs::read_to_string(p).unwrap_or_default();
+    let j: serde_json::Value = serde_json::from_str(&s).unwrap_or_default();
+    let r = &j["replay"];
+    let x = r["x"].as_u64().unwrap_or(0) as u32;
+    let evs: Vec<Ev> = r["events"].as_array().map(|a| a.iter().filter_map(|v| v.as_u64()).map(|i| ALPHABET[i as usize]).collect()).unwrap_or_default();
+    println!("replaying x={x} {:?}", evs);
+    let (o, _, _) = run_history(x, evs);
+    for l in &o.trace {
+        println!("  {l}");
+    }
+    for (s, d) in o.fails {
+        println!("  FAIL {s}: {d}");
+        out.violation(s, d, r.clone());
+    }
+    out.set("states", 1);
+    out.set("transitions", 1);
+    out.set("traces_validated_against_impl", 1);
+    out.set("samples", json!([r]));
     out
 }
